@@ -91,7 +91,7 @@ Section Proofs.
           | _ :: _ =>
               let '(oc, okc) := clean_node c in
               if okc then let '(r', ok) := clean_children r in (ocons oc r', ok)
-              else (ocons oc r, false)
+              else (ocons oc (drop_manifest manifest r), false)
           end
       end.
   Proof. reflexivity. Qed.
@@ -157,6 +157,30 @@ Section Proofs.
 
   Lemma basename_sub nm p x sub : file_in sub p x -> basename (nm :: p) = basename p.
   Proof. intros H. apply file_in_nonempty in H. destruct p; [congruence | reflexivity]. Qed.
+
+  Lemma drop_manifest_keeps r p c :
+    file_in r p c -> owned (basename p) = false -> file_in (drop_manifest manifest r) p c.
+  Proof.
+    induction r as [|x r IH]; intros Hin Ho; [exact Hin|].
+    apply file_in_cons_inv in Hin as [(nm & Heq & ->) | [(nm & sub & p' & Heq & -> & Hs) | Hin]]; subst; simpl.
+    - rewrite owned_file_single in Ho. unfold Clean.owned in Ho. apply orb_false_iff in Ho as [_ Ho]. rewrite Ho.
+      apply fi_here. left. reflexivity.
+    - destruct sub as [|s0 sub]; [inversion Hs; subst; simpl in *; contradiction|].
+      eapply fi_sub; [left; reflexivity | exact Hs].
+    - specialize (IH Hin Ho). destruct x as [fn fc | dn [|d0 ds]]; simpl.
+      + destruct (is_manifest manifest fn); [exact IH | apply file_in_tail; exact IH].
+      + destruct (is_manifest manifest dn); [exact IH | apply file_in_tail; exact IH].
+      + apply file_in_tail; exact IH.
+  Qed.
+
+  Lemma drop_manifest_incl r : incl (drop_manifest manifest r) r.
+  Proof.
+    induction r as [|x r IH]; [apply incl_refl|].
+    destruct x as [fn fc | dn [|d0 ds]]; simpl.
+    - destruct (is_manifest manifest fn); [apply incl_tl; exact IH | apply incl_cons; [left; reflexivity | apply incl_tl; exact IH]].
+    - destruct (is_manifest manifest dn); [apply incl_tl; exact IH | apply incl_cons; [left; reflexivity | apply incl_tl; exact IH]].
+    - apply incl_cons; [left; reflexivity | apply incl_tl; exact IH].
+  Qed.
 
   Lemma children_post_of_nodes cs : Forall node_post cs -> children_post cs.
   Proof.
@@ -258,14 +282,14 @@ Section Proofs.
              repeat split; try discriminate.
              ++ intros p c Hin Ho. apply file_in_cons_inv in Hin as [(nm & Heq & ->) | [(nm & sub & p' & Heq & -> & Hs) | Hin]]; try discriminate.
                 ** injection Heq as <- <-. eapply fi_sub; [left; reflexivity|]. apply A0; [exact Hs|]. rewrite <- (basename_sub dn _ _ _ Hs). exact Ho.
-                ** apply file_in_tail. exact Hin.
+                ** apply file_in_tail. apply drop_manifest_keeps; assumption.
              ++ intros p c Hin. apply file_in_cons_inv in Hin as [(nm & Heq & ->) | [(nm & sub & p' & Heq & -> & Hs) | Hin]]; try discriminate.
                 ** injection Heq as <- <-. eapply fi_sub; [left; reflexivity | auto].
-                ** apply file_in_tail. exact Hin.
+                ** apply file_in_tail. eapply file_in_mono; [apply drop_manifest_incl | exact Hin].
              ++ intros p Hin. apply dir_in_cons_inv in Hin as [(nm & sub & Heq & ->) | [(nm & sub & p' & Heq & -> & Hs) | Hin]].
                 ** injection Heq as <- <-. eapply di_here. left. reflexivity.
                 ** injection Heq as <- <-. eapply di_sub; [left; reflexivity | auto].
-                ** apply dir_in_tail. exact Hin.
+                ** apply dir_in_tail. eapply dir_in_mono; [apply drop_manifest_incl | exact Hin].
   Qed.
 
   Lemma node_post_all n : node_post n.
